@@ -319,6 +319,38 @@ def ring_cases(growth):
     return out
 
 
+def fault_cases():
+    """read(2) misbehaving at EVERY handler call: short reads (the descriptor delivers at most CAP bytes), spurious
+    wake-ups (EAGAIN although data is there), reads interrupted by a signal (EINTR, to be retried unnoticed) --
+    on arrivals, at EOF and in the drain, around the buffer's growth steps"""
+    out = []
+    T = [b"h1", b"h10"]
+    hx = relay.hexs
+    small = b"ab\ncd\n\nef"
+    big = b"x" * 70 + b"\n" + b"y" * 1500 + b"\n" + b"tail"
+    k = 0
+    for p, caps in ((small, ["0", "1", "2", "3", "-"]), (big, ["0", "1", "63", "64", "65", "999", "1000", "1001", "-"])):
+        cutsets = [[c] for c in range(1, len(p))] if len(p) < 20 else [[10], [64], [71], [72, 1000], [500, 1571, 1573]]
+        for cuts in cutsets:
+            chunks = cuts_at(p, cuts)
+            for cap in caps:
+                for ne in ("0", "1", "3"):
+                    k += 1
+                    strm = "oe"[k % 2]
+                    dcap = cap if cap not in ("0",) else "1"
+                    ops = ["feed 1 %s %s %s %s" % (strm, hx(c), cap, ne) for c in chunks]
+                    # a call that finds nothing new, one more under the same faults, then EOF and the drain
+                    ops += ["feed 1 %s - %s %s" % (strm, cap, ne), "feed 1 %s - - %s" % (strm, ne),
+                            "eof 1 %s %s %s" % (strm, cap, ne), "drain 1 %s %s %s" % (strm, dcap, ne), "flush 0", "flush 1"]
+                    out.append(explicit(T, True, False, {(1, strm): chunks}, ops, ["read-faults", "cap=" + cap, "eintr=" + ne]))
+    # EOF seen by a call whose read is interrupted first; EOF on a descriptor that never carried a byte
+    for ne in ("1", "2", "5"):
+        out.append(explicit(T, True, False, {(0, "o"): [b"line\nrest"], (0, "e"): []},
+                            ["feed 0 o " + hx(b"line\nrest") + " - " + ne, "eof 0 e - " + ne, "eof 0 o - " + ne,
+                             "drain 0 o - " + ne, "flush 0", "flush 1"], ["read-faults", "eintr=" + ne]))
+    return out
+
+
 def pinned_cases(growth, magic, quick):
-    return (percent_cases() + ring_cases(growth) +line_cases(quick) + growth_cases(growth, quick) + tail_cases() + empty_cases() + burst_cases() +
+    return (fault_cases() + percent_cases() + ring_cases(growth) +line_cases(quick) + growth_cases(growth, quick) + tail_cases() + empty_cases() + burst_cases() +
             marker_cases(magic) + label_cases() + eof_order_cases() + two_host_cases(quick))
